@@ -261,3 +261,8 @@ impl PartialEq<str> for FoldString {
         self.0 == other
     }
 }
+
+// verification hook: bounded-model-checking harnesses (compiled only by Kani, `--cfg kani`)
+#[cfg(kani)]
+#[path = "/verif/harness/h_long_strings.rs"]
+mod verif;
